@@ -247,6 +247,69 @@ def check_combined(chk, prog):
               decl[0].loc if decl else None)
 
 
+LOSSLESS_SINKS = ("alloc::vec::Vec::push", "alloc::vec::Vec::extend", "smallvec::SmallVec::push", "alloc::vec::Vec::extend_from_slice", "alloc::collections::vec_deque::VecDeque::push_back")
+
+
+def check_combined_members(chk, prog):
+    """the functions that expand a (combined) ruleset into the rules of one iteration must hand over EVERY rule of every member"""
+    R = chk.rule("R-COMBINED-ALL-MEMBERS", "every function that expands a ruleset for a step (switches on Ruleset::{Rules, Combined} and recurses): in the Rules arm a plain loop over the "
+                 "ruleset's own map adds every entry to the output through an operation that cannot drop an element (Vec::push / extend); in the Combined arm every named "
+                 "sub-ruleset is expanded by the recursive call. A keyed insertion (entry().or_insert, insert into a map keyed by something other than the rule) can silently "
+                 "drop a rule that shares the key with a rule of another member")
+    from ..util import arm_region
+    n = 0
+    for f in prog.lib_fns(["egglog"]):
+        for (sw, amap, _, place) in match_arms(prog, f, "egglog::ast::Ruleset"):
+            if "Rules" not in amap or "Combined" not in amap:
+                continue
+            if not any(c.p == f.name for c in f.calls):
+                continue  # not a recursive expander
+            n += 1
+            role = f.name
+            for arm, sinks, what in (("Rules", None, "rule"), ("Combined", f.name, "sub-ruleset")):
+                reg = arm_region(f, sw, amap[arm])
+                loops = []
+                for c in f.calls:
+                    if c.bb in reg and (c.p.endswith("Iterator>::next") or c.p.endswith("Iterator::next")) and c.target is not None and f.term(c.target)[0] == "switch":
+                        some = [tb for v, tb in f.term(c.target)[2] if v == "1"]
+                        if some:
+                            loops.append((c, some[0]))
+                ok = len(loops) == 1
+                why = f"{len(loops)} loops in the {arm} arm"
+                if ok:
+                    nx, some = loops[0]
+                    if sinks is None:
+                        good = {c.bb for c in f.calls if c.bb in reg and c.p in LOSSLESS_SINKS and len(c.args) > 1 and
+                                any(a[0] == "call" and a[2] == nx.bb for a in _deep_item(f, c.args[1]))}
+                        other = [c for c in f.calls if c.bb in reg and c.p.rsplit("::", 1)[-1] in ("or_insert", "or_insert_with", "insert", "entry", "retain", "dedup") and
+                                 not c.p.startswith("core::")]
+                    else:
+                        good = {c.bb for c in f.calls if c.bb in reg and c.p == sinks}
+                        other = []
+                    r = {some} | f.reach_avoiding([some], good) if some not in good else set()
+                    # `?` error exits of the recursive call leave the loop: they are not "next iteration" paths
+                    ok = bool(good) and nx.bb not in r and not other
+                    why = ("an iteration can continue without adding the " + what) if good and nx.bb in r else \
+                        (f"the {what}s are collected through a keyed / conditional insertion ({', '.join(sorted({c.p.rsplit('::', 2)[-2] + '::' + c.p.rsplit('::', 1)[-1] for c in other}))})" if other else
+                         f"no lossless add of the iterated {what} found")
+                chk.judge(ok, R, f"{role}:{arm}", f"every {what} of the member is handed on",
+                          f"{why}: a rule of one member ruleset can be dropped from the iteration of a combined ruleset", f.loc)
+    chk.floor(R, n, 2, "ruleset expanders (step_rules::collect_rule_ids, the scheduler's collect_rules)")
+
+
+def _deep_item(f, operand, depth=0):
+    """origins of a pushed value, looking through tuple / clone construction so that `(name.clone(), rule)` counts as the loop item"""
+    out = set()
+    for a in f.origins(operand):
+        if a[0] == "agg" and depth < 3:
+            st = f.stmt(a[4], a[5])
+            for o in st[2][4]:
+                out |= _deep_item(f, o, depth + 1)
+        else:
+            out.add(a)
+    return out
+
+
 def check_run_n(chk, prog):
     R = chk.rule("R-RUN-N", "the `(run R n)` command is parsed to Repeat(n, Run(R)) with n taken from the parsed unsigned literal (so R-SCHED-EXITS' Repeat semantics are (run R n)'s)")
     found = False
@@ -289,6 +352,7 @@ def run(chk, prog, tier):
     check_until(chk, prog)
     check_report_flow(chk, prog)
     check_combined(chk, prog)
+    check_combined_members(chk, prog)
     check_run_n(chk, prog)
     from . import c05
     c05.check_change_reported(chk, prog)
